@@ -157,6 +157,21 @@ func TestC12(t *testing.T) {
 		subC12Cover.Check(rt, c)
 	})
 
+	// (i-b) lists longer than the sequence number space (the list, unlike its members, has no
+	// 16-bit limit): every number once in ascending order plus duplicates, 65536, 65537 and
+	// 131072 entries, and a shorter stretch as the control
+	if harness.Cfg.Shard == 0 {
+		for _, n := range []int{65535, 65536, 65537, 131072} {
+			l := make([]uint16, n)
+			for i := range l {
+				l[i] = uint16(i*3 + 7) // 3 is coprime to 65536: a permutation per 65536 entries
+			}
+			subC12Cover.Check(t, c12List{Seqs: l})
+			harness.Eval(subC12Cover.Name+"/long-list", 1)
+			harness.NonTrivialDistinct(1)
+		}
+	}
+
 	// (ii) exhaustive two- and three-element lists around 0 and the wrap
 	bases := []int{}
 	for b := 0; b <= 20; b++ {
